@@ -152,7 +152,7 @@ static void collect_kids(const TSLanguage *l, Subtree parent, uint32_t pos, Fiel
   }
 }
 
-typedef struct { unsigned nodes, mismatches, with_field, multi_field, aliased; } WalkStats;
+typedef struct { unsigned nodes, mismatches, with_field, multi_field, aliased, kindbad; } WalkStats;
 
 static void walk(const TSLanguage *l, TSNode node, Subtree self, TSSymbol symbol, uint32_t start, bool extra,
                  FieldSet fields, unsigned depth, WalkStats *st) {
@@ -169,6 +169,18 @@ static void walk(const TSLanguage *l, TSNode node, Subtree self, TSSymbol symbol
   if (symbol != ts_language_public_symbol(l, ts_subtree_symbol(self))) st->aliased++;
   // cross-check this node against the public API
   if (ts_node_symbol(node) != symbol || ts_node_start_byte(node) != start) st->mismatches++;
+  // JUDGE (names round-trip on every node): the node's kind id names the node's kind, is named exactly
+  // when the node is, and is found again from (kind, is_named)
+  {
+    const char *type = ts_node_type(node);
+    bool named = ts_node_is_named(node);
+    TSSymbol kind_id = ts_node_symbol(node);
+    const char *name_of_id = ts_language_symbol_name(l, kind_id);
+    TSSymbolType ty = ts_language_symbol_type(l, kind_id);
+    if (!type || !name_of_id || strcmp(type, name_of_id) != 0 ||
+        (ty == TSSymbolTypeRegular) != named ||
+        ts_language_symbol_for_name(l, type, (uint32_t)strlen(type), named) != kind_id) st->kindbad++;
+  }
   KidVec kv = {0};
   FieldSet none = {0};
   collect_kids(l, self, start - ts_subtree_padding(self).bytes, none, &kv);
@@ -274,8 +286,8 @@ static void parse_doc(const TSLanguage *l, TSParser *parser, const char *case_id
     walk(l, root, rs, ts_node_symbol(root), ts_node_start_byte(root), false, none, 0, &st);
     if (g_log.max_versions <= 1) { printf("accs"); states(rs, true); printf("\n"); }
     fputs(logbuf, stdout);
-    printf("endtree %s nodes=%u xmismatch=%u withfield=%u multifield=%u aliased=%u\n", case_id, st.nodes, st.mismatches,
-           st.with_field, st.multi_field, st.aliased);
+    printf("endtree %s nodes=%u xmismatch=%u withfield=%u multifield=%u aliased=%u kindbad=%u\n", case_id, st.nodes, st.mismatches,
+           st.with_field, st.multi_field, st.aliased, st.kindbad);
   }
   ts_tree_delete(tree);
   free(logbuf); free(text);
